@@ -317,6 +317,18 @@ class C12(Prop):
                 lp = rng.choice(leaves)
                 out.append({"stream": "toxml_f", "tag": "re-export", "input": {"tree": py, "opts": self.r_opts(rng),
                                                                                "pre": {"path": lp, "old": rng.choice(["old text", 0, None])}}})
+        # ---- documents of realistic size: a text of hundreds / thousands of characters, hundreds of repeated elements
+        #      (the document text is longer than any file name or path may be).  Oracle only (size of the Coq literal).
+        for _ in range(8 if quick else 60):
+            ln = rng.choice([256, 300, 1000, 4096, 5000, 70000])
+            word = rng.choice(["x", "ab ", "lorem ipsum ", "é", "1"])
+            text = (word * (ln // len(word) + 1))[:ln].strip() or "x"
+            py = rng.choice([
+                {"r": {"a": text}}, {"r": text}, {"r": {"a": "1", "b": {"c": text}}},
+                {"r": {"item": ["item %d" % k for k in range(rng.choice([40, 400]))]}},
+                {"r": {"row": [{"id": str(k), "v": rng.choice(["x", "y", None])} for k in range(rng.choice([30, 300]))]}},
+            ])
+            out.append({"stream": "toxml_f", "tag": "long", "input": {"tree": py, "opts": self.r_opts(rng)}})
         # ---- loading -------------------------------------------------------------------------
         for _ in range(250 if quick else 12000):
             k = rng.random()
